@@ -389,10 +389,13 @@ def forgotten_mock_homonym_scenario():
                 t = create_test_task(Report, input_tasks={RawStats: 5})
             else:
                 t = TestChain([Report], mock_tasks={RawStats: 5})['report']
-            v = t.value
-            out.append(('a forgotten mock is not reported when the helper is constructed', f'{how}: Report needs `raw:stats` and (by class) `stats`, only raw:stats is mocked: helper built, value {v!r}'))
         except Exception:  # noqa
-            pass
+            continue
+        try:
+            v = t.value
+        except Exception as e:  # noqa
+            v = f'{type(e).__name__}: {e}'
+        out.append(('a forgotten mock is not reported when the helper is constructed', f'{how}: Report needs `raw:stats` and (by class) `stats`, only raw:stats is mocked: helper built, value {v!r}'))
     # the optional variant: real chain without Stats, helper without a mock for it
     base = scratch.fresh('c19h')
     try:
